@@ -47,6 +47,11 @@ def oracle(case, r):
         fids = lambda evs: [e.split(':')[1] for e in evs if e.startswith('run:')]   # noqa
         if fids(a['orig']) != fids(a['wrapped']) or fids(a['orig']) != fids(a['again']):
             bad.append({'access': acc, 'functions_run_by_original': fids(a['orig']), 'by_decorated': fids(a['wrapped']), 'by_decorated_twice': fids(a['again'])})
+    # … and hands back what the undecorated object hands back (for generator results: the first item, and what comes back when the consumer
+    # closes them or throws an exception in)
+    for acc, a in zip(case['accesses'], x['accesses']):
+        if ' at 0x' not in a['orig_value'] and (a['orig_value'] != a['wrapped_value'] or a['orig_value'] != a['again_value']):
+            bad.append({'access': acc, 'result_of_original': a['orig_value'], 'of_decorated': a['wrapped_value'], 'of_decorated_twice': a['again_value']})
     # every run under the profiler
     for acc, a in zip(case['accesses'], x['accesses']):
         for ev in a['wrapped'] + a['again']:
